@@ -188,6 +188,8 @@ class Engine:
     # -- exploration ----------------------------------------------------------
     def explore(self, fn, pre=None):
         set_engine(self)
+        from . import shims
+        shims.install_isinstance()
         self.todo = [[]]
         results = []
         self.conc = {}
@@ -584,10 +586,39 @@ class SymNum:
             r = z3.If(a < 2 ** k, z3.IntVal(k), r)
         return SymNum(r, False)
 
+    # The cheap cases stay in linear integer arithmetic (what the LEB128 writers need); everything else goes through bit-vectors of
+    # BIT_WIDTH bits (two's complement, like Python's unbounded ints as long as the operands fit, which is assumed on the path).
+    BIT_WIDTH = 72
+
+    def _bits(self, o):
+        if self.isf:
+            raise TypeError("unsupported operand type(s) for a bit operation: 'float'")
+        if isinstance(o, (SymBool, bool)):
+            o = lift(o)
+        if isinstance(o, float) or (isinstance(o, SymNum) and o.isf):
+            raise TypeError("unsupported operand type(s) for a bit operation: 'float'")
+        if not isinstance(o, (int, SymNum)):
+            return None
+        a, b = self.e, lift(o).e
+        if _ENG is not None and not (z3.is_int_value(a) and z3.is_int_value(b)):
+            _ENG.soft_reasons.add("bit operations on symbolic operands went through the bit-vector fallback (queries mixing integers and bit-vectors are slow)")
+        lim = 2 ** (self.BIT_WIDTH - 1)
+        for t in (a, b):
+            if not z3.is_int_value(t):
+                _ENG.assume(z3.And(t >= -lim, t < lim))
+        return z3.Int2BV(a, self.BIT_WIDTH), z3.Int2BV(b, self.BIT_WIDTH)
+
+    @staticmethod
+    def _unbits(bv):
+        return SymNum(z3.BV2Int(bv, is_signed=True), False)
+
     def __and__(self, o):
         if isinstance(o, int) and not isinstance(o, bool) and o >= 0 and (o & (o + 1)) == 0:
             return SymNum(self.e % (o + 1), False)   # low-bit mask; z3 mod is non-negative, as Python's &
-        raise TypeError(f"bit operation & with {o!r} is not modelled")
+        ab = self._bits(o)
+        if ab is None:
+            return NotImplemented
+        return self._unbits(ab[0] & ab[1])
 
     __rand__ = __and__
 
@@ -601,7 +632,14 @@ class SymNum:
             return SymNum(self.e * (2 ** o), False)
         raise TypeError("shift by a non-constant is not modelled")
 
+    def __rlshift__(self, o):
+        raise TypeError("shift by a non-constant is not modelled")
+
+    __rrshift__ = __rlshift__
+
     def __or__(self, o):
+        if isinstance(o, int) and not isinstance(o, bool) and o == 0:
+            return self
         # b | 2^k where bit k of b is known to be clear and b >= 0
         if isinstance(o, int) and o > 0 and (o & (o - 1)) == 0:
             bit = (self.e / o) % 2
@@ -609,9 +647,27 @@ class SymNum:
                 return SymNum(self.e + o, False)
             if _ENG.branch(z3.And(self.e >= 0, bit == 1)):
                 return self
-        raise TypeError(f"bit operation | with {o!r} is not modelled")
+        ab = self._bits(o)
+        if ab is None:
+            return NotImplemented
+        return self._unbits(ab[0] | ab[1])
 
     __ror__ = __or__
+
+    def __xor__(self, o):
+        if isinstance(o, int) and not isinstance(o, bool) and o == 0:
+            return self
+        ab = self._bits(o)
+        if ab is None:
+            return NotImplemented
+        return self._unbits(ab[0] ^ ab[1])
+
+    __rxor__ = __xor__
+
+    def __invert__(self):
+        if self.isf:
+            raise TypeError("bad operand type for unary ~: 'float'")
+        return SymNum(-self.e - 1, False, self.deg)
 
     def __deepcopy__(self, memo): return self
     def __copy__(self): return self
